@@ -784,10 +784,96 @@ def r13_user_box_order(repo: Repo, rep):
             rep.undecided(R, fi.site(st), fi.fq, "stored bounds recognisable as the given list or as assembled in space order", verdicts[0][2])
 
 
+def r14_point_box(repo: Repo, rep):
+    R = rep.rule("R-C18-14", "the box of a Point lists, per axis in space order, [p_i - tol, p_i + tol] - for coordinates given as a number, a list or a tensor "
+                 "(partial evaluation of Point.bounding_box)", floor=3,
+                 why="`cat((p - tol, p + tol))` is [x-, y-, x+, y+]: for two or more axes the entries are read as [x_min, x_max, y_min, y_max] and the box no longer contains the point")
+    from ..absdom.listeval import Evaluator, NotEval, Opaque, Vec1, UNKNOWN
+    from ..absdom.poly import RF
+    ci = repo.cls(f"{DOM}.domain0D.point.Point")
+    fi = ci.methods.get("bounding_box")
+    if fi is None:
+        raise AnalysisError("Point.bounding_box vanished")
+    rep.saw(fi)
+    tol = RF.atom("tol")
+
+    def run_case(fun, dim):
+        def on_call(e, name, args, kws, ev, f):
+            if name == "callable":
+                return False
+            if name.startswith("self._") and name.split(".")[-1] in ci.methods and args is not None:
+                h = ci.methods[name.split(".")[-1]]
+                rep.saw(h)
+                env = {"self": Opaque("self")}
+                env.update(zip(h.params[1:], args))
+                env.update({k: v for k, v in kws.items() if k in h.params})
+                for prm, d in zip(h.params[len(h.params) - len(h.node.args.defaults):], h.node.args.defaults):
+                    env.setdefault(prm, ev.ev(d, f))
+                fr2 = Evaluator(None, on_call).run(h.node.body, env, attrs=dict(f.attrs))
+                if not fr2.returned or fr2.ret is UNKNOWN:
+                    raise NotEval(f"helper {name}")
+                return fr2.ret
+            return None
+        attrs = {"self.point.fun": fun, "self.bounding_box_tol": tol, "self.space.dim": dim, "self.dim": 0}
+        return Evaluator(None, on_call).run(fi.node.body, {"self": Opaque("self"), "params": Opaque("params"), "device": "cpu"}, attrs=attrs).ret
+    cases = [("a number", RF.atom("p0"), 1), ("a list of 2", [RF.atom("p0"), RF.atom("p1")], 2), ("a list of 3", [RF.atom("p0"), RF.atom("p1"), RF.atom("p2")], 3),
+             ("a tensor of 2", Vec1([RF.atom("p0"), RF.atom("p1")]), 2), ("a tensor of 3", Vec1([RF.atom("p0"), RF.atom("p1"), RF.atom("p2")]), 3)]
+    for label, fun, dim in cases:
+        got = run_case(fun, dim)
+        want = [x for i in range(dim) for x in (RF.atom(f"p{i}") - tol, RF.atom(f"p{i}") + tol)]
+        text = f"coordinates given as {label}: [p_i - tol, p_i + tol] per axis"
+        if not isinstance(got, list) or got is UNKNOWN:
+            rep.undecided(R, fi.site(), fi.fq, text + " (evaluable)", repr(got)[:80])
+            continue
+        gl = [g if isinstance(g, RF) else RF.const(g) if isinstance(g, (int, float)) else g for g in got]
+        rep.check(R, len(gl) == len(want) and all(isinstance(a, RF) and a == b for a, b in zip(gl, want)), fi.site(), fi.fq, text, f"{[repr(g) for g in gl]}", f"{label}: {[repr(g) for g in gl]}")
+
+
+def r15_lhs_per_row_per_axis(repo: Repo, rep):
+    R = rep.rule("R-C18-15", "Latin-hypercube proposals: the box is evaluated for EVERY parameter row (unconditionally, inside the per-row loop, with that row's parameters) and "
+                 "every axis draws its OWN permutation of the strata (randperm inside the per-axis loop)", floor=2,
+                 why="a box kept from the first row never proposes in the rest of a larger later domain; one permutation shared by all axes puts every proposal on the diagonal cells of the box")
+    from ..util import parent_map
+    ci = repo.cls("problem.samplers.random_samplers.LHSSampler")
+    sp, cr = ci.methods.get("_sample_points"), ci.methods.get("_create_lhs_in_bounding_box")
+    if sp is None or cr is None:
+        raise AnalysisError("LHSSampler._sample_points / _create_lhs_in_bounding_box vanished")
+    rep.saw(sp), rep.saw(cr)
+    pm = parent_map(sp.node)
+    calls = [c for c in ast.walk(sp.node) if isinstance(c, ast.Call) and isinstance(c.func, ast.Attribute) and c.func.attr == "bounding_box"]
+    if not calls:
+        rep.undecided(R, sp.site(), sp.fq, "the box of the domain is evaluated", "no bounding_box call")
+    for c in calls:
+        chain, q = [], pm.get(id(c))
+        while q is not None and q is not sp.node:
+            chain.append(q)
+            q = pm.get(id(q))
+        in_loop = any(isinstance(x, (ast.For, ast.While)) for x in chain)
+        guarded = [dump(x.test)[:40] for x in chain if isinstance(x, (ast.If, ast.IfExp))]
+        prm = kwarg(c, "params", 0)
+        row = prm is not None and any(isinstance(a, ast.Assign) and any(dump(t) == dump(prm) for t in a.targets) and isinstance(a.value, (ast.IfExp, ast.Subscript)) and "params[" in dump(a.value)
+                                      for a in ast.walk(sp.node))
+        rep.check(R, in_loop and not guarded and row, sp.site(c), sp.fq, "bounding_box(<this row's parameters>) evaluated in every pass of the per-row loop",
+                  f"in loop: {in_loop}, under conditions {guarded}, parameters `{dump(prm) if prm is not None else None}`", f"box call loop={in_loop} guards={guarded}")
+    pm2 = parent_map(cr.node)
+    perms = [c for c in ast.walk(cr.node) if isinstance(c, ast.Call) and (attr_chain(c.func) or "").endswith("randperm")]
+    if not perms:
+        rep.undecided(R, cr.site(), cr.fq, "a permutation of the strata", "no randperm call")
+    for c in perms:
+        q, depth = pm2.get(id(c)), 0
+        while q is not None and q is not cr.node:
+            if isinstance(q, (ast.For, ast.While)) or isinstance(q, (ast.ListComp, ast.GeneratorExp)):
+                depth += 1
+            q = pm2.get(id(q))
+        rep.check(R, depth >= 1, cr.site(c), cr.fq, "randperm is drawn inside the loop over the axes", f"drawn at loop depth {depth}: one order of the strata for all axes", f"randperm at depth {depth}")
+
+
 def run(repo: Repo, rep):
     r11_same_space_operands(repo, rep)
     r12_box_dtype(repo, rep)
     r13_user_box_order(repo, rep)
+    r14_point_box(repo, rep)
+    r15_lhs_per_row_per_axis(repo, rep)
     r10_membership_within_box(repo, rep)
     r9_no_rounding(repo, rep)
     r1_r2_primitives(repo, rep)
